@@ -10,6 +10,7 @@ import (
 	"fmt"
 	"os"
 	"path/filepath"
+	"regexp"
 	"strings"
 	"sync"
 
@@ -105,3 +106,26 @@ func Active(id string) bool {
 
 // Hit counts a case that matched (or was excluded because of) an active finding.
 func Hit(id string) { hx.Known(id) }
+
+var (
+	reSplitDbg      = regexp.MustCompile(`,\s*splitDebugInlining: false\b`)
+	reIsDefFalse    = regexp.MustCompile(`\bisDefinition: false\b`)
+	reDwarfAS0Field = regexp.MustCompile(`,\s*dwarfAddressSpace: 0\b`)
+)
+
+// RewriteDebugInfo rewrites external input (compiler output) so that it no longer runs into the two open
+// debug-info findings of property prop ("C01", "C17"): `splitDebugInlining: false` is removed,
+// `isDefinition: false` becomes true, `dwarfAddressSpace: 0` is removed; every rewrite is counted as a
+// hit of the finding. bools / as0 say which of the findings are active (still reproduce).
+func RewriteDebugInfo(x, prop string, bools, as0 bool) string {
+	if bools && (strings.Contains(x, "splitDebugInlining: false") || strings.Contains(x, "isDefinition: false")) {
+		id := "KF-" + prop + "-di-default-true-bools"
+		x = reSplitDbg.ReplaceAllStringFunc(x, func(string) string { Hit(id); return "" })
+		x = reIsDefFalse.ReplaceAllStringFunc(x, func(string) string { Hit(id); return "isDefinition: true" })
+	}
+	if as0 && strings.Contains(x, "dwarfAddressSpace: 0") {
+		id := "KF-" + prop + "-dwarfAddressSpace-zero"
+		x = reDwarfAS0Field.ReplaceAllStringFunc(x, func(string) string { Hit(id); return "" })
+	}
+	return x
+}
